@@ -91,30 +91,52 @@ def model_check(module, cfg_path, workdir, workers=16, dump=False, heap="8g", ti
 _KV = re.compile(r'(\w+) \|->\s+(<<[^>]*>>|"[^"]*"|-?\d+|TRUE|FALSE)')
 
 
+def _parse_block(block, var):
+    i = block.find(var + " = [")
+    if i < 0:
+        return None
+    rec = {}
+    for k, v in _KV.findall(block[i:]):
+        if v.startswith("<<"):
+            inner = v[2:-2].strip()
+            try:
+                rec[k] = [int(x) for x in inner.split(",")] if inner else []
+            except ValueError:
+                pass
+        elif v.startswith('"'):
+            rec[k] = v[1:-1]
+        elif v in ("TRUE", "FALSE"):
+            rec[k] = v == "TRUE"
+        else:
+            rec[k] = int(v)
+    return rec
+
+
+def iter_dump(path, var="st", must_contain=None):
+    """Stream a TLC -dump file whose states are one flat record variable (one dict per state).  must_contain: a substring a
+    state block has to contain to be parsed at all (cheap pre-filter for very large dumps)."""
+    buf = []
+    with open(path) as f:
+        for ln in f:
+            if ln.startswith("State ") and buf:
+                block = "".join(buf)
+                buf = []
+                if must_contain is None or must_contain in block:
+                    rec = _parse_block(block, var)
+                    if rec is not None:
+                        yield rec
+            buf.append(ln)
+    if buf:
+        block = "".join(buf)
+        if must_contain is None or must_contain in block:
+            rec = _parse_block(block, var)
+            if rec is not None:
+                yield rec
+
+
 def parse_dump(path, var="st"):
     """Parse a TLC -dump file whose states are one flat record variable."""
-    text = open(path).read()
-    out = []
-    for block in text.split("\nState ")[0:]:
-        i = block.find(var + " = [")
-        if i < 0:
-            continue
-        rec = {}
-        for k, v in _KV.findall(block[i:]):
-            if v.startswith("<<"):
-                inner = v[2:-2].strip()
-                try:
-                    rec[k] = [int(x) for x in inner.split(",")] if inner else []
-                except ValueError:
-                    pass
-            elif v.startswith('"'):
-                rec[k] = v[1:-1]
-            elif v in ("TRUE", "FALSE"):
-                rec[k] = v == "TRUE"
-            else:
-                rec[k] = int(v)
-        out.append(rec)
-    return out
+    return list(iter_dump(path, var))
 
 
 _RES = re.compile(r'^<<"RESULT", (".*")>>$', re.M)
